@@ -39,7 +39,7 @@ mod verif_c14 {
 
     fn has(d: &Option<Dependencies>, c: &str) -> bool { match d { Some(d) => d.verif_contains(&fdep(c)), None => false } }
 
-    // @h name=c14_nesting_depth3 tier=thorough timeout=3600 cap=3
+    // @h name=c14_nesting_depth3 tier=thorough timeout=3600 cap=3 props=C14
     #[kani::proof]
     #[kani::unwind(7)]
     fn c14_nesting_depth3() {
@@ -89,7 +89,7 @@ mod verif_c14 {
         static D3: Cell<Option<*mut Option<Dependencies>>> = const { Cell::new(None) };
     }
 
-    // @h name=c14_nesting_depth2 tier=quick timeout=600 cap=2
+    // @h name=c14_nesting_depth2 tier=quick timeout=600 cap=2 props=C14
     #[kani::proof]
     #[kani::unwind(5)]
     fn c14_nesting_depth2() {
@@ -123,7 +123,7 @@ mod verif_c14 {
     }
 
     // all three record kinds (file, directory, asset) go through the same attribution rule
-    // @h name=c14_record_kinds tier=quick timeout=600 cap=3
+    // @h name=c14_record_kinds tier=quick timeout=600 cap=3 props=C14
     #[kani::proof]
     #[kani::unwind(7)]
     fn c14_record_kinds() {
